@@ -669,7 +669,11 @@ func ruleDecodeHeader(p *Prog, r *Report) {
 				r.bad(rule, key, pos, fmt.Sprintf("%s handed to NewHSMSDataMessage is %q; E37 puts it at %s", w.name, dataArgs[i].String(), w.re))
 			}
 		}
-		if u16 == nil || strings.Join(bytesOf(*u16), ",") != "p0.input[4],p0.input[5]" {
+		sidTerm, _ := termOf(dataArgs[6])
+		if sidTerm == "int(Uint16(p0.input[4:6]))" || sidTerm == "int(Uint16(p0.input[4:14][0:2]))" {
+			// the term itself names the window the big-endian read is taken from
+			r.ok(rule, rule+":data:sessionID-bytes", pos, "the session id is read big-endian from input[4], input[5]")
+		} else if u16 == nil || strings.Join(bytesOf(*u16), ",") != "p0.input[4],p0.input[5]" {
 			got := "?"
 			if u16 != nil {
 				got = strings.Join(bytesOf(*u16), ",")
@@ -716,7 +720,9 @@ func ruleDecodeHeader(p *Prog, r *Report) {
 func ruleFraming(p *Prog, r *Report) {
 	const rule = "R5-framing"
 	// (a) at least 14 bytes
-	if fn := p.MustFunc(r, "hsms", "(*parser).parseMessageLength"); fn != nil {
+	if fn := p.MustFunc(r, "hsms", "(*parser).parseMessageLength"); fn != nil && framingByEvaluation(p, r, rule, fn) {
+		// decided by evaluation
+	} else if fn != nil {
 		CheckDomain(p, r, DomainSpec{Rule: rule, Key: rule + ":hsms.parseMessageLength:len(input)", Fn: fn,
 			Subjs:  []Subj{{Name: "len(input)", Kind: SLen, Path: "p0.input", Type: typInt}},
 			Consts: []int64{0, 4, 10, 13, 14, 15}, What: "len(input) >= 14",
@@ -764,7 +770,9 @@ func ruleFraming(p *Prog, r *Report) {
 		}
 	}
 	// (c) every byte of the text is consumed before a data message is built
-	if fn := p.MustFunc(r, "hsms", "(*parser).parseMessage"); fn != nil {
+	if fn := p.MustFunc(r, "hsms", "(*parser).parseMessage"); fn != nil && consumedAllByEvaluation(p, r, rule, fn) {
+		// decided by evaluation
+	} else if fn != nil {
 		key := rule + ":hsms.parseMessage:consumed-all"
 		found := false
 		var callBlk *ssa.BasicBlock
@@ -1154,4 +1162,138 @@ func widthFromItemDecoder(p *Prog, r *Report, rule, key, family string, k int64,
 		t, _ := termOf(*elems[0].Inner)
 		r.ok(rule, key, pos, fmt.Sprintf("evaluated on an item of %d elements with symbolic payload: element i is the %s value read at its own offset, e.g. %s", n, typ, t))
 	}
+}
+
+// framingByEvaluation: parseMessageLength, the first method Parse calls on the
+// parser it has just made (position 0), evaluated on inputs of 0 to 20 and
+// 300 bytes whose first four bytes declare a length at and around the bytes
+// that follow: it must succeed exactly when the input has at least 14 bytes
+// and the declared length equals the number of bytes after the length field.
+// Reports false when an evaluation does not decide.
+func framingByEvaluation(p *Prog, r *Report, rule string, fn *ssa.Function) bool {
+	var badLen, badEq []string
+	n := 0
+	lens := []int64{0, 1, 3, 4, 5, 10, 13, 14, 15, 16, 20, 300}
+	for _, total := range lens {
+		for _, declared := range []int64{total - 4, total - 5, total - 3, 0, 10, total, 1 << 24, (total - 4) + 1<<16} {
+			if declared < 0 || declared > 0xFFFFFFFF {
+				continue
+			}
+			in := NewInterp(p)
+			in.PathBind["p0.input"] = Val{K: KSlice, S: "p0.input", Len: int(total)}
+			in.PathBind["len(p0.input)"] = int64Val(total)
+			in.InitBind["p0.pos"] = int64Val(0)
+			for i := int64(0); i < 4 && i < total; i++ {
+				in.PathBind[fmt.Sprintf("p0.input[%d]", i)] = int64Val((declared >> (8 * uint(3-i))) & 0xFF)
+			}
+			out := in.Run(fn, defaultArgs(fn), nil)
+			if out.Frame == nil || len(in.Stuck) > 0 {
+				return false
+			}
+			rets := out.Frame.ReturnVals()
+			acc, rej := false, len(rets) == 0
+			for _, rv := range rets {
+				if len(rv) != 1 || rv[0].K != KBool {
+					return false
+				}
+				if rv[0].B {
+					acc = true
+				} else {
+					rej = true
+				}
+			}
+			if acc && rej {
+				return false
+			}
+			n++
+			want := total >= 14 && declared == total-4
+			if acc != want {
+				msg := fmt.Sprintf("an input of %d bytes declaring a length of %d is %s", total, declared, map[bool]string{true: "accepted", false: "refused"}[acc])
+				if total < 14 {
+					badLen = append(badLen, msg)
+				} else {
+					badEq = append(badEq, msg)
+				}
+			}
+		}
+	}
+	pos := p.Pos(fn.Pos())
+	if len(badLen) > 0 {
+		r.bad(rule, rule+":hsms.parseMessageLength:len(input)", pos, strings.Join(firstN(badLen, 3), "; ")+" (a message has at least 14 bytes)")
+	} else {
+		r.ok(rule, rule+":hsms.parseMessageLength:len(input)", pos, fmt.Sprintf("evaluated on %d inputs of 0 to 300 bytes: every input shorter than 14 bytes is refused", n))
+	}
+	if len(badEq) > 0 {
+		r.bad(rule, rule+":hsms.parseMessageLength:declared==present", pos, strings.Join(firstN(badEq, 3), "; ")+" (success is 'bytes after the length field == declared length')")
+	} else {
+		r.ok(rule, rule+":hsms.parseMessageLength:declared==present", pos, fmt.Sprintf("evaluated on %d inputs whose declared length is the bytes present, one less, one more, 0, 10, the total, 2^24 and 2^16 too many: success is exactly 'bytes after the length field == declared length'", n))
+	}
+	return true
+}
+
+// consumedAllByEvaluation: parseMessage evaluated on concrete data messages
+// whose text is one item, and on the same messages with further bytes behind
+// the item (inside the declared length): the first must be accepted and
+// built, the others refused.
+func consumedAllByEvaluation(p *Prog, r *Report, rule string, fn *ssa.Function) bool {
+	key := rule + ":hsms.parseMessage:consumed-all"
+	header := []int64{0, 1, 0x81, 3, 0, 0, 9, 8, 7, 6}
+	items := [][]int64{{0xA5, 1, 7}, {0x01, 0}, {0x41, 2, 0x61, 0x62}}
+	tails := [][]int64{nil, {0}, {0xA5, 1, 8}, {0x01, 0}, {0xFF}}
+	var bad []string
+	n := 0
+	for _, item := range items {
+		for _, tail := range tails {
+			text := append(append([]int64{}, item...), tail...)
+			total := 4 + 10 + len(text)
+			in := NewInterp(p)
+			in.Recursion = 1
+			in.PathBind["p0.input"] = Val{K: KSlice, S: "p0.input", Len: total}
+			in.PathBind["len(p0.input)"] = int64Val(int64(total))
+			in.PathBind["p0.msgLength"] = int64Val(int64(total - 4))
+			in.InitBind["p0.pos"] = int64Val(4)
+			for i, b := range append(append([]int64{}, header...), text...) {
+				in.PathBind[fmt.Sprintf("p0.input[%d]", 4+i)] = int64Val(b)
+			}
+			built := false
+			in.OnCall = func(call *ssa.Call, callee *ssa.Function, a []Val, fr *frame) {
+				if callee.Name() == "NewHSMSDataMessage" {
+					built = true
+				}
+			}
+			out := in.Run(fn, defaultArgs(fn), nil)
+			if out.Frame == nil || len(in.Stuck) > 0 {
+				return false
+			}
+			rets := out.Frame.ReturnVals()
+			acc, rej := false, len(rets) == 0
+			for _, rv := range rets {
+				if len(rv) != 1 || rv[0].K != KBool {
+					return false
+				}
+				if rv[0].B {
+					acc = true
+				} else {
+					rej = true
+				}
+			}
+			if acc && rej {
+				return false
+			}
+			n++
+			what := fmt.Sprintf("a data message whose text is the item %s followed by [%s]", hexOf(item), hexOf(tail))
+			switch {
+			case len(tail) == 0 && !(acc && built):
+				bad = append(bad, fmt.Sprintf("a data message whose text is exactly the item %s is refused", hexOf(item)))
+			case len(tail) > 0 && acc:
+				bad = append(bad, what+" is accepted: bytes after the item are ignored")
+			}
+		}
+	}
+	if len(bad) > 0 {
+		r.bad(rule, key, p.Pos(fn.Pos()), strings.Join(firstN(bad, 3), "; "))
+	} else {
+		r.ok(rule, key, p.Pos(fn.Pos()), fmt.Sprintf("evaluated on %d concrete data messages: the text of exactly one item is accepted and built; the same text followed by one byte, by another item or by an empty list is refused", n))
+	}
+	return true
 }
